@@ -334,31 +334,43 @@ class ChainNode(Entity):
         reply_future: SimFuture | None = metadata.get("reply_future")
 
         # CRAQ: if not tail and key is dirty, forward to tail
-        if (
+        fwd_event = self._forward_dirty_read(key, reply_future)
+        if fwd_event is not None:
+            yield 0.0, [fwd_event]
+            return None
+
+        # Serve locally
+        value = yield from self._store.get(key)
+
+        # CRAQ: a write may have been applied while the local read was in progress
+        fwd_event = self._forward_dirty_read(key, reply_future)
+        if fwd_event is not None:
+            yield 0.0, [fwd_event]
+            return None
+
+        self._reads_served += 1
+        if reply_future is not None:
+            reply_future.resolve({"status": "ok", "value": value})
+        return None
+
+    def _forward_dirty_read(self, key: str, reply_future: SimFuture | None) -> Event | None:
+        """CRAQ: build the Read forwarded to the tail if the key is dirty on this non-tail node."""
+        if not (
             self._craq_enabled
             and self._role != ChainNodeRole.TAIL
             and key in self._dirty_keys
             and self.head_node is not None
         ):
-            # Find tail (last in chain)
-            tail = self._find_tail()
-            if tail is not None and tail is not self:
-                fwd_event = self._network.send(
-                    self,
-                    tail,
-                    "Read",
-                    payload={"key": key, "reply_future": reply_future},
-                )
-                yield 0.0, [fwd_event]
-                return None
-
-        # Serve locally
-        self._reads_served += 1
-        value = yield from self._store.get(key)
-
-        if reply_future is not None:
-            reply_future.resolve({"status": "ok", "value": value})
-        return None
+            return None
+        tail = self._find_tail()
+        if tail is None or tail is self:
+            return None
+        return self._network.send(
+            self,
+            tail,
+            "Read",
+            payload={"key": key, "reply_future": reply_future},
+        )
 
     def _find_tail(self) -> ChainNode | None:
         """Walk the chain to find the tail node."""
